@@ -1,6 +1,6 @@
 --------------------------------- MODULE Denote ---------------------------------
 (* Dispatch from an operation event to its reference meaning.                    *)
-EXTENDS Views, Select, Broadcast, Slice, Ufunc, TLC
+EXTENDS Views, Select, Broadcast, Slice, Ufunc, Compare, TLC
 
 Operand(e, j) == IF j > Len(e.shapes) THEN Nothing
                  ELSE IF "data" \in DOMAIN e THEN [ok |-> TRUE, shape |-> e.shapes[j], elems |-> e.data[j]]
@@ -85,6 +85,9 @@ Expect(e) ==
       [] e.op = "mean" -> Reduce("add", a, e.args.axis, <<>>, Keep(e))
       [] e.op \in {"var", "stddev"} -> ScaledVar(a, e, e.args.n)
       [] e.op = "vector_norm" -> Reduce("add", Squares(a), e.args.axis, <<>>, Keep(e))
+      \* C18 (operands are given as values of the comparison universe)
+      [] e.op = "isequal" -> [ok |-> TRUE, shape |-> <<>>, elems |-> <<Bool(IsEqual(e.args.a, e.args.b))>>]
+      [] e.op = "isclose" -> [ok |-> TRUE, shape |-> <<>>, elems |-> <<Bool(IsClose(e.args.a, e.args.b, e.args.eps4))>>]
       \* C05
       [] e.op = "slice" -> SliceView(a, e.args.parts)
       \* C06
